@@ -13,4 +13,8 @@ CHECKS = {
    technique="explicit-state BFS over sequences of real save_data calls (state = content of the it_*.hdf5 files), every probe read and every file compared with a dict reference store after each transition",
    text="All save sequences to depth 2 over a 96-operation alphabet (4 data dictionaries incl. unsorted iterations, ragged None, None column x 4 iteration selections x 3 variable selections x 2 levels) and depth 3 on reduced alphabets, for three path styles; after every transition 48 probe reads and every dataset on disk are compared with the reference model and the caller's arguments are digested.",
    note="Reference semantics: lookup by iteration value, None skipped, later saves overwrite. Iterations absent from data['it'] are outside the statement. Bounded depth 2-3."),
+ "C11": dict(engine="E2-product", level="exploration", design_ref="5 C11",
+   technique="exhaustive enumeration of generated Einstein-Toolkit directories (layout x decomposition x ghost x numbering x file order x restarts x levels x requests) against generator ground truth, exact equality",
+   text="840 generated directories (quick): 4 layouts x all 27 tensor-product cuts {1,2,3}^3 even/uneven x ghost widths, chunk numberings x file enumeration orders, >27 chunks and Carpet-style recursive layouts, 1-3 restarts with overlapping iterations and two refinement levels x request menus; join_chunks additionally driven with every insertion order (<=4 chunks) / all rotations and reversals; name maps checked entry by entry.",
+   note="Trusted base: refs/etgen.py (self-tested by an independent reassembly). Restarts use uniform aligned strides; recursive layouts may raise; hash-seed axis only in the thorough tier."),
 }
